@@ -85,7 +85,7 @@ struct alignas(64) ThreadShared {
     std::vector<Req> reqs; std::vector<int> ev;
     // batch accumulators (merged by main after join)
     long st_acq = 0, st_contended = 0, st_try_ok = 0, st_try_fail = 0, st_upg_true = 0, st_upg_false = 0, st_conc_readers = 0,
-         st_downgrades = 0, st_read_sections = 0, st_write_sections = 0, st_native = 0, st_ctor = 0, st_sleep_holds = 0, st_noop_trans = 0, st_txn = 0, st_reupgrades = 0;
+         st_downgrades = 0, st_read_sections = 0, st_write_sections = 0, st_native = 0, st_ctor = 0, st_sleep_holds = 0, st_noop_trans = 0, st_txn = 0, st_deferred = 0, st_reupgrades = 0;
 };
 
 // reupgrade: may one hold contain upgrade -> downgrade -> upgrade? Always. (On queuing_rw_mutex the pattern used to strand a waiting
@@ -209,6 +209,17 @@ struct Ctx {
     Batch& B; int t; ThreadShared& me; Rng rng; const RoundParams& rp;
     uint64_t sig = 0;
     Ctx(Batch& b, int t_, uint64_t seed) : B(b), t(t_), me(b.ts[t_]), rng(seed), rp(b.rp) {}
+    // Verdicts reached INSIDE a hardware transaction (speculative mutexes) cannot be reported from there: building the message and taking
+    // the report lock abort the transaction, and the abort rolls the observation back - the section then re-runs under the real lock and
+    // sees nothing. They are parked here as plain words (part of the transaction's write set: they survive exactly if it commits) and
+    // reported after the lock has been released, i.e. after the commit.
+    struct Deferred { const char* key; long x, y; int lock; } deferred[4]; int ndeferred = 0;
+    void defer(const char* key, long x, long y, int lock) { if (ndeferred < 4) { deferred[ndeferred].key = key; deferred[ndeferred].x = x; deferred[ndeferred].y = y; deferred[ndeferred].lock = lock; ndeferred++; } }
+    void flush_deferred() {
+        for (int i = 0; i < ndeferred; i++) { me.st_deferred++; B.fail(deferred[i].key, std::string("observed by thread ") + std::to_string(t) + " inside a hardware transaction that committed (lock " + std::to_string(deferred[i].lock) + "): values " + std::to_string(deferred[i].x) + " / " + std::to_string(deferred[i].y)); }
+        ndeferred = 0;
+    }
+#define CS_FAIL(key, x, y, lockno, msg) do { if (_xtest()) defer(key, (long)(x), (long)(y), lockno); else B.fail(key, msg); } while (0)
     void ev(int code, long v) { sig = mix(sig, (uint64_t)code * 1000003u + (uint64_t)v); if (me.ev.size() < 96) { me.ev.push_back(code); me.ev.push_back((int)v); } }
     void state(int s, int lock) { me.oplock.store(lock, std::memory_order_relaxed); me.op.store(s, std::memory_order_relaxed); }
 
@@ -221,14 +232,14 @@ struct Ctx {
     void scan_write(LockMon& L, const char* when) {
         for (int i = 0; i < B.nthreads; i++) if (i != t) {
             uint32_t s = L.slot[i].v.load(std::memory_order_relaxed);
-            if (s) B.fail("writer-not-exclusive", std::string("thread ") + std::to_string(t) + " is in a write section (" + when + ") while thread " + std::to_string(i) + " is in a " + (s == 2 ? "write" : "read") + " section of the same lock");
+            if (s) CS_FAIL("writer-not-exclusive", i, s, (int)(&L - B.mon), std::string("thread ") + std::to_string(t) + " is in a write section (" + when + ") while thread " + std::to_string(i) + " is in a " + (s == 2 ? "write" : "read") + " section of the same lock");
         }
     }
     void scan_read(LockMon& L, const char* when, bool count) {
         int others = 0;
         for (int i = 0; i < B.nthreads; i++) if (i != t) {
             uint32_t s = L.slot[i].v.load(std::memory_order_relaxed);
-            if (s == 2) B.fail("reader-with-writer", std::string("thread ") + std::to_string(t) + " is in a read section (" + when + ") while thread " + std::to_string(i) + " is in a write section of the same lock");
+            if (s == 2) CS_FAIL("reader-with-writer", i, s, (int)(&L - B.mon), std::string("thread ") + std::to_string(t) + " is in a read section (" + when + ") while thread " + std::to_string(i) + " is in a write section of the same lock");
             else if (s == 1) others++;
         }
         if (count && others) { me.st_conc_readers++; me.interesting++; }
@@ -240,16 +251,16 @@ struct Ctx {
         if (_xtest()) me.st_txn++;
         if (rp.heavy) {
             int pw = L.w.fetch_add(1), pr = L.r.load();
-            if (pw != 0 || pr != 0) B.fail("writer-not-exclusive", "writer entered with writers=" + std::to_string(pw) + " readers=" + std::to_string(pr) + " already inside (atomic holder counters)");
+            if (pw != 0 || pr != 0) CS_FAIL("writer-not-exclusive", pw, pr, lock, "writer entered with writers=" + std::to_string(pw) + " readers=" + std::to_string(pr) + " already inside (atomic holder counters)");
         }
         scan_write(L, "entry");
         long va = vload(L.a), vb = vload(L.b);
-        if (va != vb) B.fail("write-section-interrupted", "writer found a=" + std::to_string(va) + " b=" + std::to_string(vb) + ": another write section is in progress or its writes are not visible");
+        if (va != vb) CS_FAIL("write-section-interrupted", va, vb, lock, "writer found a=" + std::to_string(va) + " b=" + std::to_string(vb) + ": another write section is in progress or its writes are not visible");
         vstore(L.a, va + 1);
         hold();
         scan_write(L, "exit");
         long a2 = vload(L.a), b2 = vload(L.b);
-        if (a2 != va + 1 || b2 != vb) B.fail("writer-not-exclusive", "protected words changed under the write lock: a " + std::to_string(va + 1) + "->" + std::to_string(a2) + " b " + std::to_string(vb) + "->" + std::to_string(b2));
+        if (a2 != va + 1 || b2 != vb) CS_FAIL("writer-not-exclusive", a2, b2, lock, "protected words changed under the write lock: a " + std::to_string(va + 1) + "->" + std::to_string(a2) + " b " + std::to_string(vb) + "->" + std::to_string(b2));
         vstore(L.b, va + 1);
         if (rp.heavy) L.w.fetch_sub(1);
         cfence(); L.slot[t].v.store(0, std::memory_order_relaxed);
@@ -261,14 +272,14 @@ struct Ctx {
         LockMon& L = B.mon[lock];
         L.slot[t].v.store(1, std::memory_order_relaxed); cfence();
         if (_xtest()) me.st_txn++;
-        if (rp.heavy) { L.r.fetch_add(1); int pw = L.w.load(); if (pw != 0) B.fail("reader-with-writer", "reader entered with writers=" + std::to_string(pw) + " inside (atomic holder counters)"); }
+        if (rp.heavy) { L.r.fetch_add(1); int pw = L.w.load(); if (pw != 0) CS_FAIL("reader-with-writer", pw, 0, lock, "reader entered with writers=" + std::to_string(pw) + " inside (atomic holder counters)"); }
         scan_read(L, "entry", true);
         long vb = vload(L.b), va = vload(L.a);
-        if (va != vb) B.fail("reader-with-writer", "reader found a=" + std::to_string(va) + " b=" + std::to_string(vb) + ": a write section is in progress");
+        if (va != vb) CS_FAIL("reader-with-writer", va, vb, lock, "reader found a=" + std::to_string(va) + " b=" + std::to_string(vb) + ": a write section is in progress");
         hold();
         scan_read(L, "exit", false);
         long a2 = vload(L.a), b2 = vload(L.b);
-        if (a2 != va || b2 != vb) B.fail("reader-with-writer", "protected words changed under the read lock: a " + std::to_string(va) + "->" + std::to_string(a2) + " b " + std::to_string(vb) + "->" + std::to_string(b2));
+        if (a2 != va || b2 != vb) CS_FAIL("reader-with-writer", a2, b2, lock, "protected words changed under the read lock: a " + std::to_string(va) + "->" + std::to_string(a2) + " b " + std::to_string(vb) + "->" + std::to_string(b2));
         if (rp.heavy) L.r.fetch_sub(1);
         cfence(); L.slot[t].v.store(0, std::memory_order_relaxed);
         me.st_read_sections++;
@@ -301,7 +312,7 @@ template <class M> static bool do_acquire(Ctx& c, Lk<M>& lk, M& m, int lock, boo
     } else { c.me.st_try_fail++; c.me.interesting++; }
     return ok;
 }
-template <class M> static void do_release(Ctx& c, Lk<M>& lk, int lock) { c.state(S_RELEASE, lock); lk.release(); c.state(S_NONE, lock); }
+template <class M> static void do_release(Ctx& c, Lk<M>& lk, int lock) { c.state(S_RELEASE, lock); lk.release(); c.state(S_NONE, lock); if (c.ndeferred) c.flush_deferred(); }
 
 template <class M> static M& lock_at(Batch& B, int i) { return *reinterpret_cast<M*>(B.lockbuf[i]); }
 
@@ -729,7 +740,7 @@ int main(int argc, char** argv) {
             long v[16] = { s.st_acq, s.st_contended, s.st_try_ok, s.st_try_fail, s.st_upg_true, s.st_upg_false, s.st_conc_readers, s.st_downgrades,
                            s.st_read_sections, s.st_write_sections, s.st_native, s.st_ctor, s.st_sleep_holds, s.st_noop_trans, s.st_txn, s.st_reupgrades };
             for (int i = 0; i < 16; i++) acc[i] += v[i];
-            k_acq += s.st_acq; k_cont += s.st_contended + s.st_try_fail;
+            k_acq += s.st_acq; k_cont += s.st_contended + s.st_try_fail; if (s.st_deferred) R.stat("verdicts_deferred_until_after_a_committed_transaction", s.st_deferred);
         }
         R.stat(std::string("acquisitions.") + kind_name[kind], k_acq);
         R.stat(std::string("contended_or_refused.") + kind_name[kind], k_cont);
